@@ -48,6 +48,9 @@ def run(tier):
     ok_float = 'number = float(match_number.group(1))' in src
     pr.add_obligation('C12.parser.number-literals-are-floats', 'unsat' if ok_float else 'sat', 'syntactic', 0.0,
                       detail='parser._parse_unary_expression builds number literals with float()')
+    # (5) value_json prints an integral float as the int spelling in front of every terminator
+    from .C14 import cleanup_obligations, _Only
+    cleanup_obligations(_Only(pr, lambda name: 'C12' in name.split('.')[0]))
     pr.assumptions += RUNTIME_ASSUMPTIONS + [
         'spelling independence is shown for numbers passed as arguments/operands; numbers nested inside arrays and objects are compared through value_compare/value_string/value_json, whose contracts are spelling independent (CMP lemma CMP.int-float-spelling)',
         'functions without a contract yet (regex*, schema*, data*, datetime*, json*, arrayIndexOf/LastIndexOf/Join/Sort, objectNew, stringFromCharCode, systemFetch and friends) are not covered by this run; clock and random functions are excluded by the property',
